@@ -52,6 +52,9 @@ var shapes = []shape{
 	{"unknown-name-first-on-server", []security.AuthMethod{CTB}, []security.AuthMethod{security.AuthMethod("MUNGE"), CTB}, 1, 0},
 	{"unknown-name-first-on-client", []security.AuthMethod{security.AuthMethod("GSI"), CTB}, []security.AuthMethod{CTB}, 1, 0},
 	{"unknown-between", []security.AuthMethod{TOK, CTB}, []security.AuthMethod{TOK, security.AuthMethod("GSI"), CTB}, 1, 0},
+	// the SSL method between two cedar endpoints: certificate on the server, CA on the client
+	{"ssl", []security.AuthMethod{security.AuthSSL}, []security.AuthMethod{security.AuthSSL}, 1, 0},
+	{"ssl-after-unusable", []security.AuthMethod{TOK, security.AuthSSL}, []security.AuthMethod{TOK, security.AuthSSL}, 1, 0},
 	{"token-listed-not-held", []security.AuthMethod{TOK}, []security.AuthMethod{TOK}, -1, 0},
 	{"token-held", []security.AuthMethod{TOK}, []security.AuthMethod{TOK}, 1, 1},
 }
@@ -93,6 +96,16 @@ func run(s *kernel.Sim, c *scen.Case) {
 	if sh.token == 1 {
 		now := hs.Now()
 		ccfg.Token = tw.Token(now-10, now+3600)
+	}
+	if strings.HasPrefix(sh.name, "ssl") {
+		sw, err := hs.NewSSLWorld()
+		if err != nil {
+			s.Violate("harness", "ssl-world", err.Error())
+			return
+		}
+		defer sw.Close()
+		sw.Server(scfg)
+		sw.Client(ccfg)
 	}
 	net := simnet.New(s, simnet.DrawConfig(t))
 	pr := hs.NewPair(net, 1)
@@ -197,7 +210,9 @@ func run(s *kernel.Sim, c *scen.Case) {
 		s.Violate("ends-hold-different-keys", sig("agree-key"), cell)
 		return
 	}
-	if mustAuth && !(sn.Authentication && sn.User != "") {
+	// (the SSL method authenticates the server to the client; without a client certificate
+	// the server has no identity to record for the client, so only the flag is demanded there)
+	if mustAuth && !(sn.Authentication && (sn.User != "" || strings.HasPrefix(sh.name, "ssl"))) {
 		s.Violate("authentication-did-not-run", sig("must-auth"), fmt.Sprintf("%s: authentication must run, server reports Authentication=%v user=%q method=%q", cell, sn.Authentication, sn.User, sn.NegotiatedAuth))
 		return
 	}
